@@ -351,7 +351,10 @@ Conclusion, for every thinning interval, time limit outcome, concentration updat
 entry of the trace restores with `Tree.from_dict` to a store that satisfies the store invariants again,
 lists every data point `0 .. n-1` exactly once (`dataCompleteB`), represents a complete well-formed
 tree, and whose `log_p_one` under the entry's recorded concentration value is the entry's recorded
-value — which is positive, i.e. finite in the log domain.  Used: C07 `inv_run` (legal histories keep
+value — which is positive, i.e. finite in the log domain.  (That the *real* samplers satisfy `RealisesAt`
+is not an obligation of any model: it is the trusted correspondence — the exact transition rows of the five
+real samplers are compared with these very models by the checks of C01 / C04, their edits with the store
+model by C06 / C07 / C15.)  Used: C07 `inv_run` (legal histories keep
 `WF`, `Full`, `Aligned`), C06 `cacheOK_run_legal` and `pOneC_eq` (the cached density is the rebuilt one),
 C15 `mkEntry_restores` (round trip), C03 positivity, and `support_complete_wf`. -/
 theorem run_entries_ok (p : Params) (hd : C03.PosData p.dt)
